@@ -54,16 +54,16 @@ type runOut struct {
 // the library may keep no state from one execution to the next, so this must not change any result.
 // (Anything pooled, cached or memoised at package level would carry their partial output over.)
 var poisonSrc = map[string]string{
-	"p1":   "a{% set x %}LEFTOVER-set{{ nosuchfn() }}{% endset %}b",
-	"p2":   "{% filter upper %}LEFTOVER-filter{{ nosuchfn() }}{% endfilter %}",
-	"p3":   "{% macro m(a) %}LEFTOVER-macro{{ nosuchfn() }}{% endmacro %}{{ _self.m(1) }}",
-	"p4":   "{% block b %}LEFTOVER-b{{ block('c') }}{% endblock %}{% block c %}LEFTOVER-c{{ nosuchfn() }}{% endblock %}",
-	"p5":   "{% extends 'pbase' %}{% block b %}LEFTOVER-child{{ parent() }}{% endblock %}",
-	"p6":   "{% for v in [1, 2] %}LEFTOVER-loop{% include 'pinc' %}{% endfor %}",
-	"p7":   "{% embed 'pbase' %}{% block b %}LEFTOVER-embed{{ nosuchfn() }}{% endblock %}{% endembed %}",
-	"p8":   "LEFTOVER-parse{% if %}",
-	"p9":   "{% set v = 'LEFTOVER-value' %}{% set w %}{{ v }}{{ 1 % 0 }}{% endset %}",
-	"pinc": "LEFTOVER-inc{{ nosuchfn() }}",
+	"p1":    "a{% set x %}LEFTOVER-set{{ nosuchfn() }}{% endset %}b",
+	"p2":    "{% filter upper %}LEFTOVER-filter{{ nosuchfn() }}{% endfilter %}",
+	"p3":    "{% macro m(a) %}LEFTOVER-macro{{ nosuchfn() }}{% endmacro %}{{ _self.m(1) }}",
+	"p4":    "{% block b %}LEFTOVER-b{{ block('c') }}{% endblock %}{% block c %}LEFTOVER-c{{ nosuchfn() }}{% endblock %}",
+	"p5":    "{% extends 'pbase' %}{% block b %}LEFTOVER-child{{ parent() }}{% endblock %}",
+	"p6":    "{% for v in [1, 2] %}LEFTOVER-loop{% include 'pinc' %}{% endfor %}",
+	"p7":    "{% embed 'pbase' %}{% block b %}LEFTOVER-embed{{ nosuchfn() }}{% endblock %}{% endembed %}",
+	"p8":    "LEFTOVER-parse{% if %}",
+	"p9":    "{% set v = 'LEFTOVER-value' %}{% set w %}{{ v }}{{ 1 % 0 }}{% endset %}",
+	"pinc":  "LEFTOVER-inc{{ nosuchfn() }}",
 	"pbase": "[{% block b %}LEFTOVER-base{{ nosuchfn() }}{% endblock %}]",
 }
 
